@@ -574,6 +574,9 @@ def build():
                7: LoopSpec([cm_inv_map(True)], index="_c7", havoc=[cm_havoc(7)], steps=[cm_step_cell("_c7", 7)])},
         canaries=[lambda ex, env: z3.And(T(env["g_mapid"]) != 0, env["g_nranges"].t == 2)]))
 
+    from contracts.shared_ground import decoded_cells_always_look_up_their_merge_state
+    plan.ground.append(("decoded-cells-always-look-up-their-merge-state", decoded_cells_always_look_up_their_merge_state))
+
     # ------------------------------------------------------------------ Table.merge_ranges: read from the table's CURRENT cells
     # result: one A1 range per cell of the current grid that reports is_merged - origin that cell's own position, extent its own size - and
     # nothing else (no range for cells the table no longer has, whatever the model's merge map still lists)
